@@ -342,6 +342,22 @@ impl Engine for PurityHist {
                             o.violate("c15-key-object-identity-matters", format!("step {step} observe[{i}] issue with the subject key given as a second object for the same key: {d}"));
                             break;
                         }
+                        // ... and as an object for the same RSA key labelled with another signature
+                        // hash: the subject signs nothing, its public key is all that may matter
+                        if let Some(kp3) = w.second_key_object_other_hash(*subject) {
+                            if let Some(r3) = w.exec_issue_with_subject(op, &kp3) {
+                                let now3 = Observed::of(&w, op, &r3);
+                                o.count("observations_with_subject_key_under_another_hash", 1);
+                                o.ev(format!("{step} rehashed-subject[{i}] {}", now3.tag()));
+                                if let Err((_, d)) = want.same_as(&now3) {
+                                    o.violate(
+                                        "c15-subject-key-label-matters",
+                                        format!("step {step} observe[{i}] issue with the subject given as the same RSA key configured with another signature hash (same public key, the subject signs nothing): {d}"),
+                                    );
+                                    break;
+                                }
+                            }
+                        }
                     }
                 }
                 HStep::ObserveViaClone(i) => {
